@@ -85,6 +85,34 @@ def liveAfter (live : List Nat) (ts : List Test) : List Nat := ts.foldl liveAfte
 def shouldFail (live : List Nat) (t : Test) : Bool :=
   ownFailures live t == 0 && !ignores live t && (blocksOf live t).length != expected live t
 
+/-! ### a test whose object allocates in its constructor / destructor -/
+
+/-- memory operations of a constructor / destructor (no checks, no declarations there) -/
+def hMem (h : HState) : Cmd → HState
+  | .alloc id _ => hAlloc h id
+  | .free id => hFree h id
+  | .realloc id newId size => hexec h (.realloc id newId size)
+  | _ => h
+
+def hRunMem (h : HState) (cs : List Cmd) : HState := cs.foldl hMem h
+
+/-- setup, body, teardown from a given state -/
+def throughPhases (h : HState) (t : Test) : HState :=
+  hPhase (hPhase (hPhase h .setup t.setup) .body t.body) .teardown t.teardown
+
+/-- the history of one test from its start (before the constructor of its object) to its end
+    (after the destructor): the window of the leak check -/
+def atEndObj (live : List Nat) (t : TestObj) : HState :=
+  hRunMem (throughPhases (hRunMem (start (liveAtStart live t.test)) t.ctor) t.test) t.dtor
+
+def blocksOfObj (live : List Nat) (t : TestObj) : List Nat := (atEndObj live t).mine
+def liveAfterTestObj (live : List Nat) (t : TestObj) : List Nat := (atEndObj live t).live
+
+/-- the condition of the property statement, on a history state at the end of a test -/
+def verdictAt (h : HState) : Bool := h.own == 0 && !h.ignore && h.mine.length != h.expected
+
+def shouldFailObj (live : List Nat) (t : TestObj) : Bool := verdictAt (atEndObj live t)
+
 /-- which tests of a sequence must get a leak failure, by the property statement -/
 def verdicts : List Nat → List Test → List Bool
   | _, [] => []
